@@ -143,7 +143,7 @@ theorem exDir_ok : DirOK [85] exDir := by
     have h0' : ¬ ((1, 0) : Key) = t := fun h => h0 h.symm
     have h1' : ¬ ((1, 1) : Key) = t := fun h => h1 h.symm
     simp only [exDir, List.mem_cons, List.not_mem_nil, or_false] at hf
-    rcases hf with rfl | rfl <;> simp [instSeq, Chunk.key, List.filter_cons, h0', h1']
+    rcases hf with rfl | rfl <;> simp [instSeq, Chunk.key, h0', h1']
   refine ⟨by decide, by decide, ?_, ?_⟩
   · intro f hf
     have hf' := hf
